@@ -18,9 +18,25 @@ use crate::geometry::pentagon::PentagonShape;
 use crate::projections::dodecahedron::DodecahedronProjection;
 use std::collections::HashSet;
 
+#[cfg(feature = "verif")]
+thread_local! {
+    // Which branch answered the last lookup on this thread:
+    // 0 = estimate at the point itself, k = probe sample k, -1 = nearest-cell fallback, -2 = no search
+    static VERIF_LAST_LOOKUP_BRANCH: std::cell::Cell<i32> = const { std::cell::Cell::new(-2) };
+}
+
+/// Which branch answered the last lookup on the calling thread
+#[cfg(feature = "verif")]
+pub fn verif_last_lookup_branch() -> i32 {
+    VERIF_LAST_LOOKUP_BRANCH.with(|b| b.get())
+}
+
 /// Convert lon/lat coordinates to A5 cell ID
 pub fn lonlat_to_cell(lonlat: LonLat, resolution: i32) -> Result<u64, String> {
     // Resolution -1 represents WORLD_CELL, which covers the entire world
+    #[cfg(feature = "verif")]
+    VERIF_LAST_LOOKUP_BRANCH.with(|b| b.set(-2));
+
     if resolution == -1 {
         return Ok(WORLD_CELL);
     }
@@ -50,7 +66,14 @@ pub fn lonlat_to_cell(lonlat: LonLat, resolution: i32) -> Result<u64, String> {
     let mut unique_estimates = Vec::new();
     let mut cells = Vec::new();
 
+    #[cfg(feature = "verif")]
+    let mut verif_sample_index = -1;
+
     for sample in samples {
+        #[cfg(feature = "verif")]
+        {
+            verif_sample_index += 1;
+        }
         let estimate = lonlat_to_estimate(sample, resolution)?;
         let estimate_key = serialize(&estimate)?;
         if !estimate_set.contains(&estimate_key) {
@@ -60,12 +83,17 @@ pub fn lonlat_to_cell(lonlat: LonLat, resolution: i32) -> Result<u64, String> {
             // Check if we have a hit, storing distance if not
             let distance = a5cell_contains_point(&estimate, lonlat)?;
             if distance > 0.0 {
+                #[cfg(feature = "verif")]
+                VERIF_LAST_LOOKUP_BRANCH.with(|b| b.set(verif_sample_index));
                 return serialize(&estimate);
             } else {
                 cells.push((estimate, distance));
             }
         }
     }
+
+    #[cfg(feature = "verif")]
+    VERIF_LAST_LOOKUP_BRANCH.with(|b| b.set(-1));
 
     // As fallback, sort cells by distance and use the closest one
     cells.sort_by(|a, b| b.1.partial_cmp(&a.1).unwrap_or(std::cmp::Ordering::Equal));
